@@ -46,6 +46,9 @@ class SessionRules(Rule):
                     L.probe("clean_loss_pending_%s" % st)
                     L.violate("C11", "L1", "not-failed:%s:%s" % (rq.kind, "held" if st == "held" else "sent"),
                               "%s rid=%d (%s) still pending after its clean-session connection was lost" % (rq.kind, rq.rid, st))
+                    L.violate("C04", "H4", "pending-not-failed-at-clean-loss:%s:%s" % (rq.kind, "connected" if c.connack_seq else "handshake"),
+                              "%s rid=%d (%s) was not failed when its clean-session connection was lost (%s)"
+                              % (rq.kind, rq.rid, st, "after CONNACK" if c.connack_seq else "during the handshake"))
                     continue
                 if f[1]:
                     L.violate("C11", "L1", "succeeded-at-loss:%s" % rq.kind, "%s rid=%d succeeded in the loss dispatch" % (rq.kind, rq.rid))
@@ -74,6 +77,8 @@ class SessionRules(Rule):
                     if rq is None or rq.kind != "publish" or not rq.accepted or not rq.qos or rq.seq >= d.seq:
                         continue
                     L.violate("C12", "M1", "publish-failed-at-loss:%s" % ("opened" if opened else "before-connect"),
+                              "publish rid=%d fired (%s) when a persistent-session connection was lost" % (rid, val))
+                    L.violate("C04", "H4", "pending-not-preserved-at-persistent-loss",
                               "publish rid=%d fired (%s) when a persistent-session connection was lost" % (rid, val))
 
     # --------------------------------------------------------------- CONNACK
@@ -143,7 +148,15 @@ class SessionRules(Rule):
                 elif f[2][0] != "MQTTSessionCleared":
                     L.violate("C12", "M4", "wrong-reason:%s" % f[2][0],
                               "carried-over publish rid=%d failed with %s instead of MQTTSessionCleared" % (rq.rid, f[2][0]))
-        # M5: what was requested on this connection is neither failed nor re-sent
+        # M5: what was requested on this connection is neither failed nor re-sent ... nor dropped:
+        # after a clean CONNACK nothing carried over is left, so a QoS 0 message at the head
+        # of what is still unsent can only be this connection's own, and nothing holds it back
+        if c.clean and c.closing is None and not d.aborted:
+            head = [r for r in s.fifo if not (r.fires and r.fires[0][0] == d.seq and not r.fires[0][1] and r.qos)]
+            if head and not head[0].qos and head[0].ci == c.ci and head[0].seq < d.seq:
+                L.violate("C12", "M5", "own-qos0-not-sent:clean",
+                          "QoS 0 publish rid=%d requested on this connection before CONNACK was not written by CONNACK time"
+                          % head[0].rid)
         for rq in own:
             if any(f[0] == d.seq and not f[1] for f in rq.fires):
                 L.violate("C12", "M5", "own-request-failed:%s" % ("clean" if c.clean else "persistent"),
